@@ -75,6 +75,9 @@ pub trait Process {
     spec fn rejects(&self, titles: Seq<String>) -> bool;
     // what start(titles) writes when it succeeds (the header row of csv / text --headers; nothing otherwise)
     spec fn header(&self, titles: Seq<String>) -> Seq<char>;
+    // what fut() WILL BE once start(titles) has succeeded: what would be appended to the log, behind the header, if start(titles)
+    // succeeded now, `rows` were fed and complete() called — starting a chain must not change what it computes
+    spec fn sfut(&self, titles: Seq<String>, rows: Seq<Context>) -> Seq<char>;
 
 //@@ fn process.start = src/processor.rs :: trait Process :: fn start
 //@@ ret r
@@ -88,6 +91,8 @@ pub trait Process {
             // a valid one writes exactly the header of the selection names that reach the printer, in order (C15)
             old(self).rejects(titles_so_far.names()) ==> r is Err && final(self).log() == old(self).log(), // @tobl start.rejects
             r is Ok ==> final(self).log() == old(self).log().add(old(self).header(titles_so_far.names())), // @tobl start.header
+            // the started stage computes what the assembled stage promised for these selection names (C03: start changes nothing else)
+            r is Ok ==> forall|rows: Seq<Context>| #[trigger] final(self).fut(rows) == old(self).sfut(titles_so_far.names(), rows), // @tobl start.fut
 //@@ endfn
 
 //@@ fn process.process = src/processor.rs :: trait Process :: fn process
